@@ -853,11 +853,15 @@ regp_recv(RegP *p, RPMaybeFrame *mf)
     case EBUSY:
         /* Send EBUSY reply, based on fallback buffer */
         return early_ebusy(p, &fb);
-    case ENOMEM:
-        /* Send ERXOVERFLOW reply, based on fallback buffer */
+    case ENOMEM: {
+        /* Send ERXOVERFLOW reply, based on fallback buffer. The frame has not
+         * been parsed, so its raw octets are taken from the receive buffer. */
+        const size_t have = cs.buffer.used - sizeof(RPFrame);
         byte_buffer_rewind(&fb);
-        byte_buffer_add(&fb, mf->frame->raw.memory, RP_HEADER_SIZE);
+        byte_buffer_add(&fb, cs.buffer.data + sizeof(RPFrame),
+                        have < RP_HEADER_SIZE ? have : RP_HEADER_SIZE);
         return early_erxoverflow(p, &fb);
+    }
     default:
         /* Unexpected error. Really shouldn't happen. */
         return -EINVAL;
